@@ -261,6 +261,36 @@ def run(rep: Report, tier: str) -> None:
                                 f"(100000000000000000.1234567890) reaches the DECIMAL column rounded, although the configured precision could store it"))
     rep.instance("R30.6", "loader-functions-scanned", nontrivial=False, sample={"functions": n6})
     rep.floor("R30.6 loader functions", n6, 10)
+    # ---- R30.7: the Number column type is the DECIMAL the accepted setting stands for - for every accepted setting, the disable value included ----
+    rep.rule("R30.7", "get_decimal_type evaluated after set_decimal_config for every accepted (width, scale) setting, -1 and unset included: the type is exactly "
+                      "DECIMAL(<width in effect>,<scale in effect>) as get_decimal_config reports it - never a binary float")
+    fgt = P.func(f"{CFGMOD}.get_decimal_type")
+    fgc = P.func(f"{CFGMOD}.get_decimal_config")
+    n7 = 0
+    shown7 = 0
+    env7: Dict[str, str] = {}
+    for w7 in [None, -1] + list(range(1, 39, 3)) + [28, 38]:
+        for s7 in [None, -1, 0, 6, 10, 15]:
+            it7 = make_interp(P, env7)
+            kind7, val7 = evaluate(P, it7, env7, w7, s7, (wname, sname))
+            if kind7 != "ok":
+                continue
+            try:
+                ty7 = it7.call(fgt, {})
+                cfg7 = it7.call(fgc, {})
+            except Raised as r:
+                ty7, cfg7 = f"<raises {getattr(r.exc, 'kind', '?')}>", None
+            n7 += 1
+            want7 = f"DECIMAL({val7[0]},{val7[1]})"
+            if n7 <= 3 or -1 in (w7, s7):
+                rep.instance("R30.7", f"type/{w7}/{s7}", nontrivial=True, sample={"width_setting": w7, "scale_setting": s7, "in_effect": list(val7), "column_type": ty7})
+            if (str(ty7).replace(" ", "") != want7 or (cfg7 is not None and tuple(cfg7) != tuple(val7))) and shown7 < 3:
+                shown7 += 1
+                rep.add(Finding("R30.7", f"R30.7/type/{w7}/{s7}", fgt.module.rel, fgt.node.lineno, fgt.qualname,
+                                f"with width setting {w7 if w7 is not None else '<unset>'} and scale setting {s7 if s7 is not None else '<unset>'} (accepted: in effect {val7}) the Number column type is "
+                                f"{ty7!r}, expected {want7!r} (get_decimal_config reports {cfg7}): Number values are then stored and added in another type than the configuration states - with "
+                                f"DOUBLE, 0.1 + 0.2 returns 0.30000000000000004 and values that do not fit the DECIMAL are accepted"))
+    rep.floor("R30.7 accepted settings evaluated", n7, 30)
     rep.assumptions = ["DuckDB typing rule DECIMAL(w,s) requires s ≤ w ≤ 38 (external fact)",
                        "os.getenv / os.environ.get modelled as a mapping lookup returning the string value or the default"]
 
